@@ -501,6 +501,7 @@ class MultifileIngest(AbstractTraceIngest):
     and skips any iterators that are exhausted.
     '''
     def __init__(self, source_uri, show_warnings: bool = True, direct_data: memoryview = None) -> None:
+        GlobalIngestData.new_input_set()
         super().__init__("top_level_multifile", show_warnings=show_warnings)
 
         self.split_pattern = re.compile(r"[,\s]")
